@@ -77,7 +77,13 @@ Print Assumptions C07_any_injective_labelling.
     single-shot result, whatever the scaffold.  The check is evaluated inside Coq on every tree
     the implementation builds in the correspondence run (translation validation; each instance
     is a kernel-checked computation).  Not proved: that the builder always produces a tree the
-    checker accepts (forall scaffold) - the tree path of C07 is therefore PARTIAL. *)
+    checker accepts (forall scaffold) - the tree path of C07 is therefore PARTIAL.
+    [tree_eval] is perform_tree_contraction on the tensor dictionary contract_tree hands over: the
+    entry of a leaf is the stored tensor laid out as the leaf's idxout says - range(ndim) for every
+    leaf as built; a single-leaf ROOT is permuted by contract_tree and its entry transposed by the
+    same permutation (repair proposed_fixes/C07-single-leaf-root-transpose.diff; before it the
+    permutation was applied to the index lists only).  The checker accepts a leaf whose idxout is a
+    permutation of its legs with trackaxes the inverse permutation. *)
 Theorem C07_checked_tree_is_defining_sum :
   forall (K : Scalar) (L : ScalarLaws K) (n : net) (data : Z -> list nat -> K) t amap v,
     WF n -> check_root n t amap = true -> tree_eval n data t = Some v ->
@@ -104,9 +110,11 @@ Print Assumptions C07_contract_tree_checked_partial.
      tree_eval n data t' = tree_eval n data t              (path <> [], pointwise)
      tree_eval n data t' = transpose p (tree_eval n data t) (path = [], the root).
    What IS established: the port of permute_axes is compared exactly with the implementation (CPerm),
-   every permuted tree of the run is re-submitted to the verified checker (CChk ... true, hence
-   C07_checked_tree_is_defining_sum applies to it: same dense tensor), and the implementation oracle
-   contracts the permuted tree (also repeatedly with one dictionary, checks/C07.py probe_history). *)
+   every permuted tree of the run - inner node, root or leaf (for a leaf the dictionary entry is
+   transposed accordingly, as tests/test_tensor_network.py does) - is re-submitted to the verified
+   checker (CChk ... true, hence C07_checked_tree_is_defining_sum applies to it: same dense tensor),
+   and the implementation oracle contracts the permuted tree (also repeatedly with one dictionary,
+   checks/C07.py probe_history). *)
 
 (** strategy independence, as far as it is proved: a checked tree and the single shot agree *)
 Theorem C07_tree_equals_einsum_when_checked :
@@ -192,3 +200,19 @@ Example C07_example_tree :
                           (SNode (SLeaf 5) (SLeaf 2)) = Some r /\
             check_root ex_net2 (r_tree r) (r_amap r) = true.
 Proof. split; [vm_compute; reflexivity|]. eexists. split; [vm_compute; reflexivity | vm_compute; reflexivity]. Qed.
+
+(** a single-tensor scaffold whose open axes meet the legs of the tensor out of order (open axes
+    = legs 2,0,1): contract_tree permutes the leaf root AND transposes its stored tensor, the
+    verified checker accepts the result - so it expands to the defining sum (this input was the
+    failing input of the repaired defect "root permutation ignored") *)
+Definition ex_leaf : net :=
+  mkN [(8%Z, mkT 8%Z [2; 1; 3]%nat [0; 1; 2]%Z 0%Z); ((-1)%Z, mkT (-1)%Z [3; 2; 1]%nat [2; 0; 1]%Z (-1)%Z)]
+      [(0, mkB 0 [-1; 8]); (1, mkB 1 [-1; 8]); (2, mkB 2 [-1; 8])]%Z.
+Example C07_example_single_leaf_root :
+  wf_b ex_leaf = true /\
+  exists r, contract_tree (K:=ZI) ex_leaf (fun r idx => (Z.of_nat (1 + 3 * nth 0 idx O + nth 2 idx O), 0%Z)) (SLeaf 8) = Some r /\
+            r_tree r = TLeaf 8 [2; 0; 1]%nat [(8%Z, 0%nat); (8%Z, 1%nat); (8%Z, 2%nat)] [1; 2; 0]%nat /\
+            fst (r_val r) = [3; 2; 1]%nat /\ r_amap r = [0; 1; 2]%nat /\
+            snd (r_val r) [2; 1; 0]%nat = (6%Z, 0%Z) /\
+            check_root ex_leaf (r_tree r) (r_amap r) = true.
+Proof. split; [vm_compute; reflexivity|]. eexists. split; [vm_compute; reflexivity|]. vm_compute. repeat split. Qed.
